@@ -249,6 +249,12 @@ pub fn k_c09_fri_remainder_evaluation_exact() {
     vreach!("C09.fri.remainder_eval.reach");
 }
 
+// (A one-layer instance - domain 8 -> 4, revealed row, folding challenge and consistent remainder all fixed, only the
+// two queried evaluations of one coset row symbolic, obligation "accepted iff the opening succeeds and both
+// evaluations equal the revealed values" - did not finish in 25 minutes: interpolate_batch / batch inversion over
+// the 64-bit field dominate even on fixed data. The per-position folding-consistency check of verify_generic with
+// at least one layer is therefore NOT under contract; seed C09-folding-check-first-match-only is not caught.)
+
 //# harness: fn=FriVerifier::verify (argument checks); label=complete; tier=quick; props=C09; timeout=600
 #[cfg_attr(kani, kani::proof)]
 #[cfg_attr(kani, kani::unwind(66))]
